@@ -421,6 +421,12 @@ def _conj(a):
     return _map(lambda v: v.conjugate() if hasattr(v, "conjugate") else v, a)
 
 
+def _iscomplexobj(x):
+    if is_sym(x):
+        return any(isinstance(v, (SComplex, Polar, PSum, complex)) for v in _oarr(x).ravel())
+    return np.iscomplexobj(x)
+
+
 def _isscalar(x):
     return isinstance(x, (SNum, SBool)) or np.isscalar(x)
 
@@ -572,7 +578,7 @@ def make_shim(pi=False, **over):
         isclose=_isclose, allclose=_allclose, all=_all, any=_any, asarray=_asarray, array=_array,
         linspace=_linspace, arange=_arange, cumsum=_cumsum, digitize=_digitize, arctan2=_arctan2,
         angle=_angle, hypot=_hypot, round=_round, around=_round, real=_real_part, imag=_imag_part,
-        conj=_conj, conjugate=_conj, isscalar=_isscalar, prod=_prod, fft=_ExactFFT, linalg=_Linalg(),
+        conj=_conj, conjugate=_conj, isscalar=_isscalar, iscomplexobj=_iscomplexobj, prod=_prod, fft=_ExactFFT, linalg=_Linalg(),
         float32=object, float64=object, complex64=object, complex128=object,
         ones=_int_alloc("ones"), zeros=_int_alloc("zeros"), empty=_int_alloc("empty"),
     )
